@@ -349,6 +349,41 @@ func init() {
 		ok, _ := jtp.VerifValidateHeaders(S(op, "s"), toStrings(L(op, "tolerated")))
 		return ok
 	}
+	/* op "fetchsame": several goroutines ask client.FetchURL for the same URL at the same moment,
+	   as the items of a page ask for their common author.  One slow or silent server must cost
+	   each of them one fetch's worth of time, not the sum. */
+	execs["fetchsame"] = func(op Op) any {
+		s := startSimulator()
+		_, opid := installWorld(op)
+		jtp.VerifCachePurge()
+		op["timeout_s"] = simTimeoutSeconds()
+		target := substitute(S(op, "u"), s.hosts, opid)
+		u, err := url.Parse(target)
+		if err != nil {
+			return map[string]any{"badurl": true}
+		}
+		k := I(op, "askers")
+		results := make([]any, k)
+		ms := make([]any, k)
+		var wg sync.WaitGroup
+		for i := 0; i < k; i++ {
+			wg.Add(1)
+			go func(i int) {
+				defer wg.Done()
+				start := time.Now()
+				doc, src, gerr := client.FetchURL(u)
+				ms[i] = time.Since(start).Milliseconds()
+				if gerr != nil {
+					results[i] = map[string]any{"err": true}
+					return
+				}
+				results[i] = map[string]any{"ok": map[string]any{"src": src.String(), "stamp": fmt.Sprint(doc["stamp"])}}
+			}(i)
+		}
+		wg.Wait()
+		s.takeLog()
+		return map[string]any{"results": results, "ms": ms}
+	}
 	/* a sequence of fetches against one world.  Steps: a URL; "@heal" (from here on the servers
 	   answer without faults); an object {"u": url, "tolerated": [...]} (a fetch with its own
 	   tolerated types).  With "parallel" all fetches run at once (their chains are disjoint:
@@ -688,6 +723,16 @@ func genC03(r *rand.Rand, n int, emit func(Op)) {
 			routes = append(routes, map[string]any{"h": h0, "path": "/{OP}/D0", "resp": genResponse(r, fmt.Sprintf("D0@H%d", h0), "HTTP/1.0 200 OK", ""), "fault": ""})
 			docs = append(docs, fmt.Sprintf("https://{H%d}/{OP}/D0", h0), fmt.Sprintf("https://{H%d}/{OP}/d0", h0))
 		}
+		if r.Intn(3) == 0 {
+			/* a document that gives another document's URL (same host, another host, a redirect,
+			   a missing one) as its own "id": what is remembered about a URL comes from that
+			   URL's own response and from nothing else */
+			k := r.Intn(len(docs))
+			h0 := I(Op(routes[0].(map[string]any)), "h")
+			named := pick(r, []string{docs[k], docs[0], fmt.Sprintf("https://{H%d}/{OP}/nothing-here", h0), fmt.Sprintf("https://{H%d}/{OP}/d0#me", h0)})
+			routes = append(routes, map[string]any{"h": h0, "path": "/{OP}/alias", "resp": "HTTP/1.0 200 OK\r\nContent-Type: application/activity+json\r\n\r\n{\"stamp\":\"alias@H" + fmt.Sprint(h0) + "\",\"id\":\"" + named + "\",\"url\":\"" + docs[0] + "\"}", "fault": ""})
+			docs = append(docs, fmt.Sprintf("https://{H%d}/{OP}/alias", h0), named, fmt.Sprintf("https://{H%d}/{OP}/alias", h0))
+		}
 		targets := append([]string{}, docs...)
 		/* redirect chains / cycles */
 		nr := r.Intn(5)
@@ -907,7 +952,29 @@ func genC05(r *rand.Rand, n int, emit func(Op)) {
 	decoy := "HTTP/1.0 200 OK\r\nContent-Type: application/activity+json\r\n\r\n{\"stamp\":\"decoy\"}"
 	hostFaults := []string{"nohandshake", "nohandshake", "halfhandshake", "tlsgarbage", "closeaccept", "resetaccept"}
 	for i := 0; i < n; i++ {
-		switch weighted(r, 12, 3, 2) {
+		switch weighted(r, 12, 3, 2, 1) {
+		case 3:
+			/* several askers of one URL at once (the items of a page asking for their common
+			   author): behind 0..2 redirects, the slow or silent server at any hop */
+			hops := r.Intn(3)
+			at := r.Intn(hops + 1)
+			doc := "HTTP/1.0 200 OK\r\nContent-Type: application/activity+json\r\n\r\n{\"stamp\":\"shared\",\"type\":\"Person\"}"
+			routes := []any{}
+			target := "https://{H1}/{OP}/same/d0"
+			fault := func(k int, text string) string {
+				if k != at {
+					return ""
+				}
+				return pick(r, []string{"stall", "stall", fmt.Sprintf("cut:%d:stall", r.Intn(len(text))), "slowtail:10:250", "", "cut:5:eof"})
+			}
+			routes = append(routes, map[string]any{"h": 1, "path": "/{OP}/same/d0", "resp": doc, "fault": fault(0, doc)})
+			for k := 1; k <= hops; k++ {
+				rr := "HTTP/1.0 302 Found\r\nLocation: " + target + "\r\n\r\n"
+				routes = append(routes, map[string]any{"h": k % simHosts, "path": fmt.Sprintf("/{OP}/same/r%d", k), "resp": rr, "fault": fault(k, rr)})
+				target = fmt.Sprintf("https://{H%d}/{OP}/same/r%d", k%simHosts, k)
+			}
+			emit(Op{"op": "fetchsame", "routes": routes, "u": target, "askers": 4 + r.Intn(6), "hops": hops, "timeout_s": 1})
+			continue
 		case 1:
 			genC05Parallel(r, emit)
 			continue
